@@ -78,6 +78,9 @@ pub fn alphabet(prog: &Prog) -> Vec<Action> {
         Action::of(Cmd::MoveReg(6, 0x1FFF)),
         Action::eval("str r3 r6 #1", None),
         Action::eval("str r6 r6 #-32", None),
+        // the two ends of memory in one history (x0000 through the wrap-around of xFFFF + 1)
+        Action::of(Cmd::MoveReg(6, 0xFFFF)),
+        Action::eval("str r3 r6 #0", None),
         Action::of(Cmd::BreakAdd(Loc::Label("slot".into(), 1))),
         Action::of(Cmd::Reset),
     ]
